@@ -938,12 +938,15 @@ func (b *builder) expr0(fn *Function, e ast.Expr, tv types.TypeAndValue) Value {
 			// either an [_]array (ixArrVar) or string (ixValue).
 
 			// Note: for ixArrVar and CoreType(xt)==nil can be IndexAddr and Load.
+			// The operand is evaluated before the index: calls happen in
+			// lexical left-to-right order.
+			x := b.expr(fn, e.X)
 			index := b.expr(fn, e.Index)
 			if isUntyped(index.Type()) {
 				index = emitConv(fn, index, tInt, e.Index)
 			}
 			v := &Index{
-				X:     b.expr(fn, e.X),
+				X:     x,
 				Index: index,
 			}
 			v.setType(et)
